@@ -15,7 +15,7 @@ verify = open(f"{src}/verify.log").read().strip().splitlines()[-1] if os.path.ex
 seeded_log = open(f"{src}/seeded.log").read() if os.path.exists(f"{src}/seeded.log") else ""
 viol = [l.strip() for l in seeded_log.splitlines() if l.strip().startswith("violation ")][:3]
 meta = {
-    "property": ID,
+    "property": ID[:3],
     "breaks": open(f"/tmp/wt/out/{ID}.prop.txt").read().splitlines()[0],
     "needs_to_manifest": needs,
     "demonstration": {"file": demo, "copy_to": dest, "command": f"cargo test --offline {cargo}", "expected": "passes on the clean tree, fails with patch.diff applied"},
